@@ -5,11 +5,21 @@
    proportional to the Born probabilities fragment by fragment.  The composition over whole circuits
    (lane bookkeeping, doubling, pyzx rewriting, decomposition, autoregressive sampling) is NOT proved here;
    it is validated on every run against an independent reference simulator on every joint outcome
-   (harness/props/c01.py), see DESIGN.md 4.C01 (strength: partial). *)
+   (harness/props/c01.py), see DESIGN.md 4.C01 (strength: partial).
+
+   Proved in addition (second half of this file): the COMPOSITION for circuits of GATE_TABLE gates and noiseless single-qubit
+   collapses (M MX MY MR MRX MRY with optional inversion, R RX RY) on any lanes of a register of any size, in any order:
+   for every value of the record and silent bits, the dense lane interpreter (the executable model the correspondence run ties
+   to tsim) computes the ordered composition of the documented operators, times a product of powers of sqrt2 that does NOT
+   depend on the bits, times a unit phase (C01_circuit, C01_circuit_dense).  Squared and summed over the silent bits this is
+   the Born weight of the record, up to one record-independent constant.  MPP, feedback, doubling, pyzx rewriting and the
+   sampler stay outside these theorems. *)
 From Coq Require Import ZArith QArith Qcanon List Bool String Ring_theory.
 Import ListNotations.
-Require Import TV.Base.EP TV.Base.EPSound TV.Model.Lane TV.Spec.Born TV.gen.Gen_instructions TV.gen.Gen_channel_tables
-  TV.Model.GateCheck TV.Model.InstrCheck TV.Proofs.GateProofs TV.Proofs.InstrProofs.
+Require Import TV.Base.EP TV.Base.EPSound TV.Base.Amp TV.Model.Lane TV.Spec.Born TV.gen.Gen_instructions TV.gen.Gen_channel_tables
+  TV.Model.GateCheck TV.Model.InstrCheck TV.Model.KrausCheck TV.Proofs.GateProofs TV.Proofs.InstrProofs
+  TV.Proofs.CircuitProofs TV.Proofs.CircuitTheorem TV.Proofs.DenseBridge TV.Proofs.KrausSem TV.Proofs.KrausLocal TV.Proofs.KrausTheorem
+  TV.Proofs.KrausGates TV.Proofs.KrausCircuit.
 
 (* M MX MY MR MRX MRY x {plain, inverted} x {noiseless, noisy} x {existing lane, fresh lane} x all bits:
    Kraus(reported r, inversion inv, noise e) = projector / projector-and-reprepare onto outcome r xor inv xor e *)
@@ -41,3 +51,69 @@ Theorem C01_fragment_reading :
       prop_to R rO rI radd rmul ropp E half ta tb tc
         (rmul (E (expo_val ta tb tc e)) (eval R rO rI radd rmul ropp E half ta tb tc (psqrt2pow k))) (fst c) (snd c).
 Proof. exact agree_all_sound. Qed.
+
+
+(* ======================= composition ======================= *)
+(* every collapse fragment entered on a lane in EVERY flag state (created or not, last spider Z or X), every bit value:
+   documented Kraus operator, one power of sqrt2 per entry state, bit-independent effect on flags and counters *)
+Theorem C01_collapse_fragments_every_entry_state :
+  forallb check_meas_at meas_fns = true /\ forallb check_reset_at reset_fns = true.
+Proof. exact (conj meas_at_ok reset_at_ok). Qed.
+
+(* the dense interpreter on n lanes IS the amplitude-function interpreter, for every primitive (unitary, collapsing, noise,
+   feedback, bookkeeping), every n, every bit assignment: no bound on the register *)
+Theorem C01_dense_is_amplitude :
+  forall (R : Type) (rO rI : R) (radd rmul rsub : R -> R -> R) (ropp : R -> R),
+  ring_theory rO rI radd rmul rsub ropp eq ->
+  forall E : Qc -> R, (forall a b, E (a + b)%Qc = rmul (E a) (E b)) -> E 0%Qc = rI -> E 1%Qc = ropp rI ->
+  forall half : R, radd half half = rI -> forall ta tb tc : Qc,
+  forall (n : nat) (b : bits) (ops : list (op nat)) (s : lstate) (t : kst R),
+  brel R rO rI radd rmul ropp E half ta tb tc n s t -> forallb (wf_op n) ops = true ->
+  brel R rO rI radd rmul ropp E half ta tb tc n (run n b ops s) (krun R rO rI radd rmul ropp E half ta tb tc b ops t).
+Proof. exact run_bridge. Qed.
+
+(* a one-lane program run at any lane q of any state applies the abstract 2x2 operator of its local run to lane q *)
+Theorem C01_local :
+  forall (R : Type) (rO rI : R) (radd rmul rsub : R -> R -> R) (ropp : R -> R),
+  ring_theory rO rI radd rmul rsub ropp eq ->
+  forall (E : Qc -> R) (half : R) (ta tb tc : Qc) (q : nat) (b : bits) (ops : list (op nat)) (t0 : kst R),
+  forallb (one_lane_op 8) ops = true ->
+  prel R radd rmul q t0 (krun R rO rI radd rmul ropp E half ta tb tc b (map (op_map (fun _ => q)) ops) t0)
+       (lrun R rO rI radd rmul ropp E half ta tb tc b ops (linit R rO rI t0 q)).
+Proof. exact local_run. Qed.
+
+(* THE composition theorem, on amplitude functions: circuits of gates / measurements / resets, any lanes, any order.
+   sq2 C: C is a product of powers of sqrt2; it is chosen before the bits b.  cspec composes the documented operators:
+   gapp_doc (Stim's matrix), spec_meas_m (projector, or projector-and-reprepare, onto outcome rec xor inv),
+   spec_reset_m (|init><eig_s| with the silent bit s; on a never-used lane the basis change to the +1 eigenstate). *)
+Theorem C01_circuit :
+  forall (R : Type) (rO rI : R) (radd rmul rsub : R -> R -> R) (ropp : R -> R),
+  ring_theory rO rI radd rmul rsub ropp eq ->
+  forall E : Qc -> R, (forall a b, E (a + b)%Qc = rmul (E a) (E b)) -> E 0%Qc = rI -> E 1%Qc = ropp rI ->
+  forall half : R, radd half half = rI -> forall ta tb tc : Qc,
+  forall (c : list cinstr) (ops : list (op nat)), ccircuit_ops c = Some ops -> forall sk : kst R,
+  exists C, sq2 R rO rI radd rmul ropp E half ta tb tc C /\
+    forall b t, skel_eq R t sk -> exists e : Qc,
+      kfinal R rmul (krun R rO rI radd rmul ropp E half ta tb tc b ops t)
+      = Amp.scale R rmul (rmul (E e) C) (cspec R rO rI radd rmul ropp E half ta tb tc b sk c (kfinal R rmul t)).
+Proof. exact circuit_kraus. Qed.
+
+(* ... and about the executable dense model on n lanes, started in |0...0> *)
+Theorem C01_circuit_dense :
+  forall (R : Type) (rO rI : R) (radd rmul rsub : R -> R -> R) (ropp : R -> R),
+  ring_theory rO rI radd rmul rsub ropp eq ->
+  forall E : Qc -> R, (forall a b, E (a + b)%Qc = rmul (E a) (E b)) -> E 0%Qc = rI -> E 1%Qc = ropp rI ->
+  forall half : R, radd half half = rI -> forall ta tb tc : Qc,
+  forall (n : nat) (c : list cinstr) (ops : list (op nat)), ccircuit_ops c = Some ops -> forallb (cinstr_lanes_ok n) c = true ->
+  exists C, sq2 R rO rI radd rmul ropp E half ta tb tc C /\ forall b, exists e : Qc,
+    st_of R rO rI radd rmul ropp E half ta tb tc n (final_vec (run n b ops (init_state n)))
+    = Amp.scale R rmul (rmul (E e) C)
+        (cspec R rO rI radd rmul ropp E half ta tb tc b (kinit R rO rI n) c (kpsi R (kinit R rO rI n))).
+Proof. exact circuit_kraus_dense. Qed.
+
+(* non-vacuity: a circuit with gates on non-adjacent lanes, an inverted measure-reset, a reset of a used lane, a reset of a
+   never-used lane and a Y-basis measurement is in the domain of the theorems *)
+Example C01_circuit_inhabited :
+  let c := [CG (GA1 "H" 0); CG (GA2 "CX" 0 3); CG (GA1 "S_DAG" 3); CM "mr" true 3; CR "rx" 0; CR "ry" 2; CG (GA2 "ISWAP" 2 1); CM "my" false 0; CM "mx" false 2]%string in
+  (exists ops, ccircuit_ops c = Some ops /\ (20 < List.length ops)%nat) /\ forallb (cinstr_lanes_ok 4) c = true.
+Proof. vm_compute. split; [eexists; split; [reflexivity | repeat constructor] | reflexivity]. Qed.
